@@ -189,6 +189,7 @@ def exec (s : State) (args : List String) : State × List Event × String :=
       match s.get (decStr t) with
       | none => (s, [], "none")
       | some tg => (s, [], renderMeta tg)
+  | ["serve", _] => (s, [], "ok")     -- every stored leaf is handed to a (coalescing) subscriber with a duplicate count: the cache is not written to
   | "own" :: _ => (s, [], "mon=ok")   -- object identity of what the cache stores and feeds vs the caller's notification: Go-side monitor
   | "ra" :: _ => (s, [], "mon=ok")    -- Remove of a target vs its re-Add + update while the delete is being announced: Go-side monitor
   | "rr" :: _ => (s, [], "mon=ok")    -- Remove of a target while its Reset is being announced: judged by the Go-side monitor only
